@@ -202,6 +202,11 @@ func checkLax(t *testing.T, c LaxCase) harness.Verdict {
 	twinV := stripMal(&c.V)
 	ctx0 := newEncCtx()
 	d0, _ := ctx0.field(td, &twinV, mctx{})
+	if ctx0.noExpect {
+		// the twin (not the original) runs into behaviour inherited from encoding/asn1 that refuses valid DER
+		v.Class("twin:inherited-quirk")
+		return v
+	}
 	n1, r1, err1 := derx.Parse(d1)
 	n0, r0, err0 := derx.Parse(d0)
 	if err1 != nil || err0 != nil || len(r1) != 0 || len(r0) != 0 {
